@@ -656,7 +656,7 @@ func onlyErrorReturnsFrom(b *ssa.BasicBlock) bool {
 		seen[x] = true
 		for _, in := range x.Instrs {
 			if r, isR := in.(*ssa.Return); isR {
-				if !isErrorReturn(r) {
+				if !isDefiniteErrorReturn(r) {
 					ok = false
 				}
 				return
@@ -752,4 +752,43 @@ func retResult(r *ssa.Return, i int) ssa.Value {
 		}
 	}
 	return v
+}
+
+// isDefiniteErrorReturn: the returned error is known to be non-nil: a fresh fmt.Errorf/errors.New value, or a value that
+// the dominating branch conditions prove non-nil. ("return f()" or "return x, err" without such a proof may return nil.)
+func isDefiniteErrorReturn(r *ssa.Return) bool {
+	if len(r.Results) == 0 {
+		return false
+	}
+	i := len(r.Results) - 1
+	if !types.Identical(r.Results[i].Type(), types.Universe.Lookup("error").Type()) {
+		return false
+	}
+	v := retResult(r, i)
+	for d := 0; d < 4; d++ {
+		switch x := v.(type) {
+		case *ssa.Const:
+			return false
+		case *ssa.Call:
+			n := calleeName(&x.Call)
+			if n == "fmt.Errorf" || n == "errors.New" {
+				return true
+			}
+		case *ssa.MakeInterface:
+			return true // a concrete error value boxed into the interface
+		case *ssa.ChangeInterface:
+			v = x.X
+			continue
+		}
+		break
+	}
+	for _, f := range blockFacts(r.Block()) {
+		if f.X == v && f.Op == token.NEQ {
+			if c, ok := f.Y.(*ssa.Const); ok && c.IsNil() {
+				return true
+			}
+		}
+	}
+	// the store that feeds a defer-spilled result may sit under the fact
+	return false
 }
